@@ -1512,9 +1512,14 @@ Proof.
   unfold convnext_arch_ok in Harch.
   destruct (convnext_arch u) as [ds chs] eqn:Ea.
   destruct chs as [|c0 [|c1 [|c2 [|c3 [|]]]]]; try discriminate Harch.
-  repeat (apply andb_true_iff in Harch; destruct Harch as [Harch ?]).
-  apply Nat.eqb_eq in Harch. apply Z.eqb_eq in H0, H1, H2, H3.
-  set (C4 := c0 / 4). assert (Ec0 : c0 = 4 * C4) by (unfold C4; lia).
+  apply andb_true_iff in Harch. destruct Harch as [Harch A3]. apply Z.eqb_eq in A3.
+  apply andb_true_iff in Harch. destruct Harch as [Harch A2]. apply Z.eqb_eq in A2.
+  apply andb_true_iff in Harch. destruct Harch as [Harch A1]. apply Z.eqb_eq in A1.
+  apply andb_true_iff in Harch. destruct Harch as [Harch A0]. apply Z.eqb_eq in A0.
+  apply andb_true_iff in Harch. destruct Harch as [Alen _]. apply Nat.eqb_eq in Alen.
+  set (C4 := c0 / 4). assert (Ec0 : c0 = 4 * C4) by (clear - A0; unfold C4; lia).
+  assert (Earch : (ds, [c0; c1; c2; c3]) = (ds, [4 * C4; 2 * (4 * C4); 4 * (4 * C4); 8 * (4 * C4)])).
+  { rewrite A1, A2, A3, Ec0. reflexivity. }
   assert (Eeff : effective_max_stride (CfgConvNext u) = pow2 (e + 3)).
   { cbn [effective_max_stride]. rewrite Ea, Es. cbn [snd length]. rewrite pow2_add. compute_pows. lia. }
   unfold valid_heads in Hvh. apply andb_true_iff in Hvh. destruct Hvh as [_ Hall].
@@ -1525,11 +1530,470 @@ Proof.
               (effective_max_stride (CfgConvNext u)) heads H W e Es Eeff Hpos Hpms Hall H20 H41 Hdom H42)
     as (b & h & w & Hos & Hbe & Hheads & Hh & Hw & EH & EW & EH2 & EW2).
   assert (Hv : convnext_valid u C4 ds e b).
-  { unfold convnext_valid. rewrite Ea. repeat split; auto; try lia.
-    do 2 f_equal. lia. f_equal. lia. f_equal. lia. f_equal. lia. }
+  { unfold convnext_valid. rewrite Ea. split. exact Earch.
+    split. exact Alen. split. exact Hker. split. exact Es. split. exact He.
+    split. exact Hrate. split. exact Hos. exact Hbe. }
   destruct (convnext_model_forward fixed u C4 ds e b heads fresh h w Hv Hheads Hh Hw) as (m & Em & _).
   exists m. split. exact Em. intros st.
   destruct (convnext_model_forward fixed u C4 ds e b heads st h w Hv Hheads Hh Hw) as (m' & Em' & Hf).
   rewrite Em in Em'. injection Em' as <-.
   rewrite <- EH, <- EW in Hf. rewrite <- EH2, <- EW2 in Hf. exact Hf.
+Qed.
+
+Theorem swint_contract_partial fixed u heads H W :
+  valid_config (CfgSwinT u) heads = true -> in_domain (CfgSwinT u) H W = true ->
+  selector_F20 (CfgSwinT u) heads = false -> selector_F41 (CfgSwinT u) heads = false ->
+  selector_F42 (CfgSwinT u) H W = false ->
+  exists m, build_model fixed (build_swint u) heads = Some m /\
+    forall st, fst (model_forward m st (s_in_channels u, H, W)) = Some (contracted heads H W).
+Proof.
+  intros Hval Hdom H20 H41 H42.
+  unfold valid_config in Hval. cbn [cfg_output_stride cfg_max_stride] in Hval.
+  apply andb_true_iff in Hval. destruct Hval as [Hval Hu].
+  apply andb_true_iff in Hval. destruct Hval as [Hval Hvh].
+  apply andb_true_iff in Hval. destruct Hval as [Hpos Hpms].
+  apply andb_true_iff in Hu. destruct Hu as [Hu Harch].
+  apply andb_true_iff in Hu. destruct Hu as [Hu Hker].
+  apply andb_true_iff in Hu. destruct Hu as [Hrate Hsps].
+  apply q_is_spec in Hrate. apply Z.eqb_eq in Hker.
+  destruct (sps_pow2 _ Hsps) as (e & He & Es).
+  unfold swint_arch_ok in Harch.
+  destruct (swint_arch u) as [[E ds] nhs] eqn:Ea.
+  destruct nhs as [|n0 [|n1 [|n2 [|n3 [|]]]]]; try discriminate Harch.
+  apply andb_true_iff in Harch. destruct Harch as [Harch M3]. apply Z.eqb_eq in M3.
+  apply andb_true_iff in Harch. destruct Harch as [Harch M2]. apply Z.eqb_eq in M2.
+  apply andb_true_iff in Harch. destruct Harch as [Harch M1]. apply Z.eqb_eq in M1.
+  apply andb_true_iff in Harch. destruct Harch as [Harch M0]. apply Z.eqb_eq in M0.
+  apply andb_true_iff in Harch. destruct Harch as [Harch A0]. apply Z.eqb_eq in A0.
+  apply andb_true_iff in Harch. destruct Harch as [Alen _]. apply Nat.eqb_eq in Alen.
+  set (C4 := E / 4). assert (EE : E = 4 * C4) by (clear - A0; unfold C4; lia).
+  clearbody C4. subst E.
+  assert (Eeff : effective_max_stride (CfgSwinT u) = pow2 (e + 3)).
+  { cbn [effective_max_stride]. rewrite Ea, Es. cbn [fst snd]. rewrite Alen, pow2_add. compute_pows.
+    clear. lia. }
+  unfold valid_heads in Hvh. apply andb_true_iff in Hvh. destruct Hvh as [_ Hall].
+  unfold selector_F20 in H20. cbn [cfg_patch_stride cfg_output_stride] in H20.
+  unfold selector_F41 in H41. unfold selector_F42 in H42. cbn [cfg_patch_stride cfg_max_stride] in H42.
+  unfold in_domain in Hdom. cbn [cfg_max_stride] in Hdom. cbn [cfg_output_stride cfg_max_stride] in Hall.
+  destruct (tv_common (s_output_stride u) (s_stem_stride u) (s_max_stride u)
+              (effective_max_stride (CfgSwinT u)) heads H W e Es Eeff Hpos Hpms Hall H20 H41 Hdom H42)
+    as (b & h & w & Hos & Hbe & Hheads & Hh & Hw & EH & EW & EH2 & EW2).
+  assert (Hv : swint_valid u C4 ds [n0; n1; n2; n3] e b).
+  { unfold swint_valid. rewrite Ea. cbn [nth length].
+    split. reflexivity. split. exact Alen. split. reflexivity.
+    split. exact M0. split. exact M1. split. exact M2. split. exact M3.
+    split. exact Hker. split. exact Es. split. exact He.
+    split. exact Hrate. split. exact Hos. exact Hbe. }
+  destruct (swint_model_forward fixed u C4 ds [n0; n1; n2; n3] e b heads fresh h w Hv Hheads Hh Hw) as (m & Em & _).
+  exists m. split. exact Em. intros st.
+  destruct (swint_model_forward fixed u C4 ds [n0; n1; n2; n3] e b heads st h w Hv Hheads Hh Hw) as (m' & Em' & Hf).
+  rewrite Em in Em'. injection Em' as <-.
+  rewrite <- EH, <- EW in Hf. rewrite <- EH2, <- EW2 in Hf. exact Hf.
+Qed.
+
+(* ---------------------------------------- the property, for all backbones *)
+Theorem contract_partial fixed c heads H W :
+  valid_config c heads = true -> in_domain c H W = true -> any_selector c heads H W = false ->
+  exists m, build_model fixed (build_backbone c) heads = Some m /\
+    forall st, fst (model_forward m st (cfg_in_channels c, H, W)) = Some (contracted heads H W).
+Proof.
+  intros Hval Hdom Hsel. unfold any_selector in Hsel.
+  repeat (apply orb_false_iff in Hsel; destruct Hsel as [Hsel ?]).
+  destruct c as [u|u|u]; cbn [build_backbone cfg_in_channels].
+  - apply unet_contract_partial; auto.
+  - apply convnext_contract_partial; auto.
+  - apply swint_contract_partial; auto.
+Qed.
+
+(* under the proposed repair the head sizing selector (F43) is not needed *)
+Theorem contract_partial_repaired u heads H W :
+  valid_config (CfgUNet u) heads = true -> in_domain (CfgUNet u) H W = true ->
+  selector_F17 (CfgUNet u) = false -> selector_F18 (CfgUNet u) = false ->
+  selector_F41 (CfgUNet u) heads = false ->
+  exists m, build_model true (build_unet u) heads = Some m /\
+    forall st, fst (model_forward m st (u_in_channels u, H, W)) = Some (contracted heads H W).
+Proof. intros. apply unet_contract_partial; auto. Qed.
+
+(* ------------------------------------------ (b) the finite preset grid *)
+(* Model.__init__'s arithmetic for a UNet head at stride 2^t, as a function of
+   (filters, rate, levels n, backbone stride 2^b) only *)
+Definition head_arith (f : Z) (r : Q) (n b t : nat) : Z :=
+  let base := round_half_even (inject_Z (fint f r (Z.of_nat n)) / r ^ Z.of_nat (n - b)) in
+  if Nat.eqb t b then base
+  else trunc (inject_Z base * r ^ (Z.of_nat (n - 1 - b) - Z.of_nat (n - 1 - t))).
+
+Lemma head_in_false_arith u s d b hd t : (b <= t < s + d)%nat -> h_os hd = pow2 t ->
+  u_output_stride u = pow2 b ->
+  head_in_channels false (unet_backbone u s d b) (u_output_stride u) hd
+  = Some (head_arith (u_filters u) (u_rate u) (s + d) b t).
+Proof.
+  intros Ht E Hos. unfold head_in_channels, head_arith, max_channels.
+  cbn [unet_backbone bb_dec unet_decoder d_strides d_stack d_x_in bb_rate].
+  rewrite map_length, seq_length, E, Hos.
+  destruct (Z.eqb_spec (pow2 t) (pow2 b)) as [Et|Et].
+  - apply pow2_inj in Et. subst t. rewrite Nat.eqb_refl. reflexivity.
+  - destruct (Nat.eqb_spec t b) as [->|]; [congruence|].
+    rewrite (index_of_stride (s + d) b b), (index_of_stride (s + d) b t) by lia. reflexivity.
+Qed.
+
+Definition grid_filters : list Z := [16; 24; 32; 64].
+Definition grid_rates : list Q := [3 # 2; 2 # 1].
+(* the one grid point where the arithmetic is wrong: 24 * 1.5^k, max_stride 64,
+   backbone stride 16, head at 32 (181 instead of 182 channels) *)
+Definition grid_bad (f : Z) (r : Q) (n b t : nat) : bool :=
+  (f =? 24) && q_is r 3 2 && Nat.eqb n 6 && Nat.eqb b 4 && Nat.eqb t 5.
+Definition grid_check (f : Z) (r : Q) (n b t : nat) : bool :=
+  (head_arith f r n b t =? fint f r (Z.of_nat t)) || grid_bad f r n b t.
+Definition grid_ok : bool :=
+  forallb (fun f => forallb (fun r => forallb (fun n => forallb (fun b =>
+    forallb (fun t => grid_check f r n b t) (seq b (n - b))) (seq 0 n)) (seq 1 6)) grid_rates) grid_filters.
+
+Lemma grid_ok_true : grid_ok = true.
+Proof. vm_compute. reflexivity. Qed.
+
+(* and it really is wrong there *)
+Lemma grid_bad_is_bad : head_arith 24 (3 # 2) 6 4 5 = 181 /\ fint 24 (3 # 2) 5 = 182.
+Proof. split; vm_compute; reflexivity. Qed.
+
+Lemma grid_point f r n b t : In f grid_filters -> In r grid_rates -> (1 <= n <= 6)%nat -> (b <= t < n)%nat ->
+  grid_bad f r n b t = false -> head_arith f r n b t = fint f r (Z.of_nat t).
+Proof.
+  intros Hf Hr Hn Ht Hbad. pose proof grid_ok_true as G. unfold grid_ok in G.
+  rewrite forallb_forall in G. specialize (G f Hf).
+  rewrite forallb_forall in G. specialize (G r Hr).
+  rewrite forallb_forall in G. specialize (G n ltac:(apply in_seq; lia)).
+  rewrite forallb_forall in G. specialize (G b ltac:(apply in_seq; lia)).
+  rewrite forallb_forall in G. specialize (G t ltac:(apply in_seq; lia)).
+  unfold grid_check in G. rewrite Hbad, orb_false_r in G. apply Z.eqb_eq in G. exact G.
+Qed.
+
+Theorem unet_grid fixed u heads H W :
+  valid_config (CfgUNet u) heads = true -> in_domain (CfgUNet u) H W = true ->
+  selector_F17 (CfgUNet u) = false -> selector_F18 (CfgUNet u) = false ->
+  selector_F41 (CfgUNet u) heads = false ->
+  In (u_filters u) grid_filters -> In (u_rate u) grid_rates -> u_max_stride u <= 64 ->
+  (forall hd, In hd heads ->
+     ~ (u_filters u = 24 /\ u_rate u = 3 # 2 /\ u_max_stride u = 64 /\ u_output_stride u = 16 /\ h_os hd = 32)) ->
+  exists m, build_model fixed (build_unet u) heads = Some m /\
+    forall st, fst (model_forward m st (u_in_channels u, H, W)) = Some (contracted heads H W).
+Proof.
+  intros Hval Hdom H17 H18 H41 Hf Hr Hms64 Hnb.
+  apply unet_contract_partial; auto. right.
+  (* re-derive the structure as in unet_contract_partial *)
+  pose proof Hval as Hval0.
+  unfold valid_config in Hval. cbn [cfg_output_stride cfg_max_stride] in Hval.
+  apply andb_true_iff in Hval. destruct Hval as [Hval Hu].
+  apply andb_true_iff in Hval. destruct Hval as [Hval Hvh].
+  apply andb_true_iff in Hval. destruct Hval as [Hpos Hpms].
+  apply andb_true_iff in Hu. destruct Hu as [Hu Hstem].
+  apply andb_true_iff in Hu. destruct Hu as [Hu _].
+  apply andb_true_iff in Hu. destruct Hu as [Hu _].
+  apply andb_true_iff in Hu. destruct Hu as [Hms2 _]. apply Z.leb_le in Hms2.
+  destruct (is_pow2_spec _ Hpos) as (b & Hos). destruct (is_pow2_spec _ Hpms) as (n & Hms).
+  assert (Hs : exists s, (s <= n)%nat /\ ((s = 0%nat /\ u_stem_stride u = None) \/ u_stem_stride u = Some (pow2 s))).
+  { destruct (u_stem_stride u) as [sv|] eqn:Es.
+    - apply andb_true_iff in Hstem. destruct Hstem as [Hp Hle]. destruct (is_pow2_spec _ Hp) as (s & ->).
+      apply Z.leb_le in Hle. rewrite Hms in Hle. exists s. split. apply pow2_le_inv; auto. right; reflexivity.
+    - exists 0%nat. split. lia. left; auto. }
+  destruct Hs as (s & Hsn & Hstem').
+  set (d := (n - s)%nat). assert (En : n = (s + d)%nat) by (unfold d; lia).
+  unfold selector_F17 in H17. apply negb_false_iff in H17.
+  unfold selector_F18 in H18. apply Z.ltb_ge in H18.
+  unfold selector_F41 in H41. cbn [effective_max_stride] in H41.
+  unfold valid_heads in Hvh. apply andb_true_iff in Hvh. destruct Hvh as [Hne Hall].
+  rewrite forallb_forall in Hall.
+  assert (Hh : forall hd, In hd heads -> exists t, (b <= t < n)%nat /\ h_os hd = pow2 t).
+  { intros hd Hin. specialize (Hall hd Hin).
+    apply andb_true_iff in Hall. destruct Hall as [Hall Hle2].
+    apply andb_true_iff in Hall. destruct Hall as [Hp2 H0].
+    destruct (is_pow2_spec _ Hp2) as (t & Et). exists t. split; auto.
+    cbn [cfg_output_stride] in H0. apply Z.leb_le in H0. rewrite Hos, Et in H0.
+    pose proof (existsb_false _ _ H41 hd Hin) as Hlt. cbn beta in Hlt. apply Z.leb_gt in Hlt.
+    rewrite Hms, Et in Hlt. split. apply pow2_le_inv; auto. apply pow2_lt_inv; auto. }
+  assert (Hbn : (b < n)%nat).
+  { destruct heads as [|hd0 ?]; [discriminate Hne|].
+    destruct (Hh hd0 (or_introl eq_refl)) as (t & Ht & _). lia. }
+  assert (Hn6 : (1 <= n <= 6)%nat).
+  { split.
+    - destruct n; [cbn in Hms; lia | lia].
+    - apply pow2_le_inv. rewrite <- Hms. exact Hms64. }
+  assert (Hv : unet_valid u s d b).
+  { unfold unet_valid. rewrite <- En. repeat split; auto. }
+  assert (Hheads : heads_ok heads b (s + d)).
+  { rewrite <- En. apply Forall_forall. auto. }
+  (* selector_F43 is false: both sizings agree on every head *)
+  unfold selector_F43. cbn [build_backbone].
+  rewrite (build_unet_spec u s d b Hv H18 H17), (unet_min_os u s d b heads Hos Hheads).
+  apply not_true_is_false. intros Hex. apply existsb_exists in Hex. destruct Hex as (hd & Hin & Hhd).
+  destruct (Hh hd Hin) as (t & Ht & Et).
+  rewrite (head_in_false_arith u s d b hd t ltac:(lia) Et Hos) in Hhd.
+  rewrite (heads_sized_fixed u s d b heads ltac:(lia) Hheads hd t Hin Et) in Hhd.
+  rewrite <- En in Hhd. unfold unet_F in Hhd.
+  rewrite grid_point in Hhd; auto.
+  - rewrite Z.eqb_refl in Hhd. discriminate.
+  - apply not_true_is_false. intros Hb. unfold grid_bad in Hb.
+    repeat (apply andb_true_iff in Hb; destruct Hb as [Hb ?]).
+    apply Z.eqb_eq in Hb. apply q_is_spec in H3. apply Nat.eqb_eq in H2, H1, H0.
+    rewrite H2 in Hms. rewrite H1 in Hos. rewrite H0 in Et.
+    apply (Hnb hd Hin). repeat split; auto.
+Qed.
+
+(* ------------------------------ (d) call sequences on one model instance *)
+Lemma model_calls_stateless m (g : shape -> list shape) : forall xs st,
+  (forall x, In x xs -> forall st', fst (model_forward m st' x) = Some (g x)) ->
+  model_calls m st xs = map (fun x => Some (g x)) xs.
+Proof.
+  induction xs as [|x xs IH]; intros st H. reflexivity.
+  cbn [model_calls map]. pose proof (H x (or_introl eq_refl) st) as Hx.
+  destruct (model_forward m st x) as [o st'] eqn:E. cbn [fst] in Hx. subst o. f_equal.
+  apply IH. intros y Hy. apply H. right; assumption.
+Qed.
+
+Theorem call_sequences fixed c heads m (inputs : list (Z * Z)) :
+  valid_config c heads = true -> build_model fixed (build_backbone c) heads = Some m ->
+  Forall (fun hw => in_domain c (fst hw) (snd hw) = true /\
+                    any_selector c heads (fst hw) (snd hw) = false) inputs ->
+  forall st,
+    model_calls m st (map (fun hw => (cfg_in_channels c, fst hw, snd hw)) inputs)
+    = map (fun hw => Some (contracted heads (fst hw) (snd hw))) inputs.
+Proof.
+  intros Hval Hm Hin st.
+  rewrite (model_calls_stateless m (fun x => contracted heads (snd (fst x)) (snd x))).
+  - rewrite map_map. reflexivity.
+  - intros x Hx st'. apply in_map_iff in Hx. destruct Hx as ((H & W) & <- & Hhw).
+    rewrite Forall_forall in Hin. destruct (Hin (H, W) Hhw) as [Hd Hs]. cbn [fst snd] in *.
+    destruct (contract_partial fixed c heads H W Hval Hd Hs) as (m' & Em' & Hf).
+    rewrite Hm in Em'. injection Em' as <-. apply Hf.
+Qed.
+
+(* ------------------------------ (c) the data pipeline's target shapes *)
+Lemma ceil_div_exact_z a b : 0 < b -> a mod b = 0 -> ceil_div a b = a / b.
+Proof.
+  intros Hb Hm. unfold ceil_div. rewrite Z.div_opp_l_z by (auto; intro; subst; inversion Hb).
+  apply Z.opp_involutive.
+Qed.
+
+Lemma contracted_targets heads H W :
+  (forall hd, In hd heads -> 0 < h_os hd /\ H mod h_os hd = 0 /\ W mod h_os hd = 0) ->
+  contracted heads H W = map (fun hd => target_shape hd H W) heads.
+Proof.
+  intros Hd. unfold contracted, target_shape. apply map_ext_in. intros hd Hin.
+  destruct (Hd hd Hin) as (Hp & H1 & H2). rewrite !ceil_div_exact_z by assumption. reflexivity.
+Qed.
+
+Lemma pow2_mod_mult h a b : (b <= a)%nat -> (h * pow2 a) mod pow2 b = 0.
+Proof.
+  intros Hab. replace a with ((a - b) + b)%nat by lia. rewrite pow2_add, Z.mul_assoc.
+  apply Z.mod_mul. pose proof (pow2_pos b). lia.
+Qed.
+
+Lemma eff_pow2 c heads : valid_config c heads = true -> exists k, effective_max_stride c = pow2 k.
+Proof.
+  intros Hval. unfold valid_config in Hval.
+  apply andb_true_iff in Hval. destruct Hval as [Hval Hu].
+  apply andb_true_iff in Hval. destruct Hval as [Hval _].
+  apply andb_true_iff in Hval. destruct Hval as [_ Hpms].
+  destruct c as [u|u|u]; cbn [effective_max_stride cfg_max_stride] in *.
+  - apply is_pow2_spec. exact Hpms.
+  - apply andb_true_iff in Hu. destruct Hu as [Hu Harch].
+    apply andb_true_iff in Hu. destruct Hu as [Hu _].
+    apply andb_true_iff in Hu. destruct Hu as [_ Hsps].
+    destruct (sps_pow2 _ Hsps) as (e & He & Es).
+    unfold convnext_arch_ok in Harch. destruct (convnext_arch u) as [ds chs].
+    destruct chs as [|c0 [|c1 [|c2 [|c3 [|]]]]]; try discriminate Harch.
+    exists (e + 3)%nat. rewrite Es. cbn [snd length]. rewrite pow2_add. compute_pows. lia.
+  - apply andb_true_iff in Hu. destruct Hu as [Hu Harch].
+    apply andb_true_iff in Hu. destruct Hu as [Hu _].
+    apply andb_true_iff in Hu. destruct Hu as [_ Hsps].
+    destruct (sps_pow2 _ Hsps) as (e & He & Es).
+    unfold swint_arch_ok in Harch. destruct (swint_arch u) as [[E ds] nhs].
+    destruct nhs as [|n0 [|n1 [|n2 [|n3 [|]]]]]; try discriminate Harch.
+    repeat (apply andb_true_iff in Harch; destruct Harch as [Harch _]).
+    apply Nat.eqb_eq in Harch.
+    exists (e + 3)%nat. rewrite Es. cbn [fst snd]. rewrite Harch, pow2_add. compute_pows. lia.
+Qed.
+
+Lemma domain_divisible c heads H W :
+  valid_config c heads = true -> in_domain c H W = true ->
+  selector_F41 c heads = false -> selector_F42 c H W = false ->
+  forall hd, In hd heads -> 0 < h_os hd /\ H mod h_os hd = 0 /\ W mod h_os hd = 0.
+Proof.
+  intros Hval Hdom H41 H42 hd Hin.
+  destruct (eff_pow2 c heads Hval) as (k & Ek).
+  unfold valid_config in Hval.
+  apply andb_true_iff in Hval. destruct Hval as [Hval _].
+  apply andb_true_iff in Hval. destruct Hval as [Hval Hvh].
+  apply andb_true_iff in Hval. destruct Hval as [_ Hpms].
+  destruct (is_pow2_spec _ Hpms) as (mm & Hmm).
+  unfold valid_heads in Hvh. apply andb_true_iff in Hvh. destruct Hvh as [_ Hall].
+  rewrite forallb_forall in Hall. specialize (Hall hd Hin).
+  apply andb_true_iff in Hall. destruct Hall as [Hall _].
+  apply andb_true_iff in Hall. destruct Hall as [Hp2 _].
+  destruct (is_pow2_spec _ Hp2) as (t & Et).
+  unfold selector_F41 in H41. pose proof (existsb_false _ _ H41 hd Hin) as Hlt. cbn beta in Hlt.
+  apply Z.leb_gt in Hlt. rewrite Ek, Et in Hlt. apply pow2_lt_inv in Hlt.
+  unfold in_domain in Hdom.
+  repeat (apply andb_true_iff in Hdom; destruct Hdom as [Hdom ?]).
+  apply Z.eqb_eq in H0, H1. rewrite Hmm in H0, H1.
+  assert (Hdiv : H mod pow2 k = 0 /\ W mod pow2 k = 0).
+  { unfold selector_F42 in H42. destruct (cfg_patch_stride c) eqn:Eps.
+    - apply andb_false_iff in H42. destruct H42 as [Hge | Hd].
+      + apply Z.ltb_ge in Hge. rewrite Ek, Hmm in Hge. apply pow2_le_inv in Hge.
+        split; eapply mod_pow2_weaken; eauto.
+      + apply negb_false_iff, andb_true_iff in Hd. destruct Hd as [D1 D2].
+        apply Z.eqb_eq in D1, D2. rewrite Ek in D1, D2. auto.
+    - destruct c; try discriminate Eps. cbn [effective_max_stride cfg_max_stride] in *.
+      rewrite Hmm in Ek. apply pow2_inj in Ek. subst. auto. }
+  destruct Hdiv as [D1 D2]. rewrite Et. pose proof (pow2_pos t).
+  split. assumption. split.
+  - apply (mod_pow2_weaken H t k); [lia | exact D1].
+  - apply (mod_pow2_weaken W t k); [lia | exact D2].
+Qed.
+
+(* the master statement with the data pipeline's target shapes on the right *)
+Theorem contract_targets fixed c heads H W :
+  valid_config c heads = true -> in_domain c H W = true -> any_selector c heads H W = false ->
+  exists m, build_model fixed (build_backbone c) heads = Some m /\
+    forall st, fst (model_forward m st (cfg_in_channels c, H, W))
+               = Some (map (fun hd => target_shape hd H W) heads).
+Proof.
+  intros Hval Hdom Hsel.
+  destruct (contract_partial fixed c heads H W Hval Hdom Hsel) as (m & Em & Hf).
+  exists m. split; auto. intros st. rewrite Hf. f_equal. apply contracted_targets.
+  unfold any_selector in Hsel.
+  repeat (apply orb_false_iff in Hsel; destruct Hsel as [Hsel ?]).
+  eapply domain_divisible; eauto.
+Qed.
+
+(* ------------------- link with C01: the target grid of generate_confmaps *)
+From SV Require C01.ConfMaps C01.Lemmas.
+
+Lemma target_side_is_c01_grid (H os : nat) : (0 < os)%nat ->
+  Z.of_nat (length (C01.ConfMaps.grid H os)) = ceil_div (Z.of_nat H) (Z.of_nat os).
+Proof.
+  intros Hos. rewrite C01.Lemmas.grid_length. unfold C01.ConfMaps.ceil_div, ceil_div.
+  rewrite Nat2Z.inj_div, Nat2Z.inj_sub, Nat2Z.inj_add by lia.
+  change (Z.of_nat 1) with 1.
+  set (a := Z.of_nat H). set (b := Z.of_nat os). assert (Hb : 0 < b) by (unfold b; lia).
+  clearbody a b. clear - Hb.
+  pose proof (Z.div_mod (a + b - 1) b ltac:(lia)). pose proof (Z.mod_pos_bound (a + b - 1) b Hb).
+  pose proof (Z.div_mod (- a) b ltac:(lia)). pose proof (Z.mod_pos_bound (- a) b Hb).
+  nia.
+Qed.
+
+(* ------------------------------------------- refutation witnesses (vm_compute) *)
+Definition w_unet (filters : Z) (rate : Q) (ms os : Z) (middle : bool) (cpb : Z) : config :=
+  CfgUNet {| u_in_channels := 1; u_kernel := 3; u_filters := filters; u_rate := rate; u_max_stride := ms;
+             u_stem_stride := None; u_middle := middle; u_up_interp := true; u_convs_per_block := cpb;
+             u_output_stride := os |}.
+Definition w_convnext_tiny (sps os ms : Z) : config :=
+  CfgConvNext {| c_model_type := 0; c_arch := None; c_in_channels := 1; c_kernel := 3; c_stem_kernel := 4;
+                 c_stem_stride := sps; c_rate := 2 # 1; c_up_interp := true; c_output_stride := os;
+                 c_max_stride := ms |}.
+Definition w_swint_tiny (sps os ms : Z) : config :=
+  CfgSwinT {| s_model_type := 0; s_arch := None; s_in_channels := 1; s_kernel := 3; s_patch := 4;
+              s_stem_stride := sps; s_rate := 2 # 1; s_up_interp := true; s_output_stride := os;
+              s_max_stride := ms |}.
+
+(* each witness: a valid configuration, an input inside the domain, exactly one
+   selector true, and the contract fails on the (pinned) model *)
+Definition refutes (c : config) (heads : list head) (H W : Z) (sels : list bool) : Prop :=
+  valid_config c heads = true /\ in_domain c H W = true /\ sel_vector c heads H W = sels /\
+  meets_contract false c heads H W = false.
+
+Lemma refuted_F17 : refutes (w_unet 16 (2 # 1) 16 2 false 2) (get_head MSingle 3 2 2 2) 32 48
+                            [true; false; false; false; false; false].
+Proof. repeat split; vm_compute; reflexivity. Qed.
+Lemma refuted_F18 : refutes (w_unet 16 (2 # 1) 16 2 true 1) (get_head MSingle 3 2 2 2) 32 48
+                            [false; true; false; false; false; false].
+Proof. repeat split; vm_compute; reflexivity. Qed.
+Lemma refuted_F20 : refutes (w_convnext_tiny 2 4 16) (get_head MSingle 3 2 4 4) 32 48
+                            [false; false; true; false; false; false].
+Proof. repeat split; vm_compute; reflexivity. Qed.
+Lemma refuted_F41 : refutes (w_unet 16 (2 # 1) 16 16 true 2) (get_head MCentroid 3 2 16 16) 32 48
+                            [false; false; false; true; false; false].
+Proof. repeat split; vm_compute; reflexivity. Qed.
+Lemma refuted_F42 : refutes (w_swint_tiny 4 4 16) (get_head MSingle 3 2 4 4) 48 48
+                            [false; false; false; false; true; false].
+Proof. repeat split; vm_compute; reflexivity. Qed.
+Lemma refuted_F43 : refutes (w_unet 24 (3 # 2) 64 16 true 2) (get_head MBottomUp 3 2 16 32) 64 64
+                            [false; false; false; false; false; true].
+Proof. repeat split; vm_compute; reflexivity. Qed.
+
+Lemma full_statement_refuted :
+  exists c heads H W, valid_config c heads = true /\ in_domain c H W = true /\
+                      meets_contract false c heads H W = false.
+Proof.
+  exists (w_unet 16 (2 # 1) 16 2 false 2), (get_head MSingle 3 2 2 2), 32, 48.
+  destruct refuted_F17 as (A & B & _ & D). auto.
+Qed.
+
+(* the proposed repair removes F20 and F43 on their witnesses *)
+Lemma repaired_witnesses :
+  meets_contract true (w_convnext_tiny 2 4 16) (get_head MSingle 3 2 4 4) 32 48 = true /\
+  meets_contract true (w_unet 24 (3 # 2) 64 16 true 2) (get_head MBottomUp 3 2 16 32) 64 64 = true.
+Proof. split; vm_compute; reflexivity. Qed.
+
+(* outside the domain the pooling layer's state shows: the UNet encoder returns
+   different shapes for the same odd-sized input on its first and second call *)
+Definition w_u : unet_cfg :=
+  {| u_in_channels := 1; u_kernel := 3; u_filters := 4; u_rate := 2 # 1; u_max_stride := 16;
+     u_stem_stride := None; u_middle := true; u_up_interp := true; u_convs_per_block := 2;
+     u_output_stride := 2 |}.
+
+Lemma stateful_outside_domain :
+  r_calls (run (CEncoder w_u [(33, 48); (33, 48)]))
+  = [Some [(64, 3, 3); (32, 5, 6); (16, 9, 12); (8, 17, 24); (4, 33, 48)];
+     Some [(64, 2, 3); (32, 4, 6); (16, 8, 12); (8, 16, 24); (4, 33, 48)]].
+Proof. vm_compute. reflexivity. Qed.
+
+(* ... and inside the domain it does not: same encoder, a multiple of 16 *)
+Lemma stateless_inside_domain :
+  r_calls (run (CEncoder w_u [(32, 48); (33, 48); (32, 48)]))
+  = [Some [(64, 2, 3); (32, 4, 6); (16, 8, 12); (8, 16, 24); (4, 32, 48)];
+     Some [(64, 2, 3); (32, 4, 6); (16, 8, 12); (8, 16, 24); (4, 33, 48)];
+     Some [(64, 2, 3); (32, 4, 6); (16, 8, 12); (8, 16, 24); (4, 32, 48)]].
+Proof. vm_compute. reflexivity. Qed.
+
+(* non-vacuity: the hypotheses of the master statement are satisfiable for each backbone *)
+Lemma ex_domain_unet :
+  let c := w_unet 24 (3 # 2) 32 4 true 2 in let hs := get_head MBottomUp 5 4 4 8 in
+  valid_config c hs = true /\ in_domain c 64 96 = true /\ any_selector c hs 64 96 = false /\ meets_contract false c hs 64 96 = true.
+Proof. repeat split; vm_compute; reflexivity. Qed.
+Lemma ex_domain_convnext :
+  let c := w_convnext_tiny 2 2 16 in let hs := get_head MBottomUp 5 4 2 4 in
+  valid_config c hs = true /\ in_domain c 32 48 = true /\ any_selector c hs 32 48 = false /\ meets_contract false c hs 32 48 = true.
+Proof. repeat split; vm_compute; reflexivity. Qed.
+Lemma ex_domain_swint :
+  let c := w_swint_tiny 4 1 32 in let hs := get_head MCentroid 5 4 2 2 in
+  valid_config c hs = true /\ in_domain c 64 32 = true /\ any_selector c hs 64 32 = false /\ meets_contract false c hs 64 32 = true.
+Proof. repeat split; vm_compute; reflexivity. Qed.
+
+(* (a) in explicit form: any depth, any rational rate p/q with filters = m * q^n *)
+Theorem unet_general_rate c s d b heads (m p : Z) (q : positive) st h w :
+  unet_valid c s d b -> 2 <= u_convs_per_block c -> u_middle c = true ->
+  heads_ok heads b (s + d) ->
+  u_rate c = p # q -> 0 < p -> u_filters c = m * Zpos q ^ Z.of_nat (s + d) ->
+  0 < h -> 0 < w ->
+  exists mm, build_model false (build_unet c) heads = Some mm /\
+    fst (model_forward mm st (u_in_channels c, h * pow2 (s + d), w * pow2 (s + d)))
+    = Some (contracted heads (h * pow2 (s + d)) (w * pow2 (s + d))).
+Proof.
+  intros Hv Hcpb Hmid Hheads Hr Hp Hf Hh Hw.
+  apply (unet_model_forward false c s d b); auto.
+  destruct Hv as (Hms & Hos & Hb & Hstem).
+  eapply heads_sized_rate; eauto.
+Qed.
+
+Theorem unet_general_repaired c s d b heads st h w :
+  unet_valid c s d b -> 2 <= u_convs_per_block c -> u_middle c = true ->
+  heads_ok heads b (s + d) -> 0 < h -> 0 < w ->
+  exists mm, build_model true (build_unet c) heads = Some mm /\
+    fst (model_forward mm st (u_in_channels c, h * pow2 (s + d), w * pow2 (s + d)))
+    = Some (contracted heads (h * pow2 (s + d)) (w * pow2 (s + d))).
+Proof.
+  intros Hv Hcpb Hmid Hheads Hh Hw.
+  apply (unet_model_forward true c s d b); auto.
+  destruct Hv as (Hms & Hos & Hb & Hstem).
+  apply heads_sized_fixed; auto.
 Qed.
